@@ -18,9 +18,9 @@ import (
 
 func c15Cfg(extended, uniqueExtra, second, clash bool) kit.WorldCfg {
 	cfg := kit.WorldCfg{
-		Stores:   []kit.StoreCfg{{Name: "emps", UniqueName: true, RolesIndex: true, Keyed: clash}, {Name: "teams"}},
+		Stores: []kit.StoreCfg{{Name: "emps", UniqueName: true, RolesIndex: true, Keyed: clash}, {Name: "teams"}},
 		// a relation the child store owns: managers lead teams
-		Links: []kit.LinkCfg{{A: "mgrs", FieldA: "leads", B: "teams", FieldB: "leaders"}},
+		Links:    []kit.LinkCfg{{A: "mgrs", FieldA: "leads", B: "teams", FieldB: "leaders"}},
 		Children: []kit.ChildCfg{{Name: "mgrs", Parent: "emps", Extended: extended, UniqueExtra: uniqueExtra, Clash: clash}},
 	}
 	if second {
